@@ -248,7 +248,7 @@ Fixpoint zero_val (fuel : nat) (sch : schema) (t : ftype) : option gval :=
   match t with
   | TStr => Some (VStr [])
   | TBool => Some (VScalar (b "false") true)
-  | TInt => Some (VScalar (b "0") true)
+  | TInt | TUint => Some (VScalar (b "0") true)
   | TXMLName => Some (VName [] [])
   | TPtr _ => Some VNil
   | TSlice _ => Some (VList [])
